@@ -14,7 +14,8 @@
 (***************************************************************************)
 EXTENDS EFLexer, Json
 
-CONSTANT Tier
+CONSTANT Tier,
+         Seed      \* >= 1: shifts which part of a sampled family is taken (1 = the default sample)
 
 VARIABLE row
 vars == <<row>>
@@ -56,7 +57,7 @@ Next ==
      /\ \E c \in 1..NA : LET s == Append(row.cs, Alphabet[c]) IN row' = [k |-> "lex", cs |-> s, toks |-> Lex(s)]
   \/ /\ row.k = "lay0"
      /\ \E c \in 1..NS, s1 \in 1..NSep, s2 \in 1..NSep, edge \in BOOLEAN :
-          /\ (Tier = "thorough" \/ (row.a + 3 * row.b + 5 * c + s1 + 2 * s2) % 5 = 0)
+          /\ (Tier = "thorough" \/ (row.a + 3 * row.b + 5 * c + s1 + 2 * s2 + Seed - 1) % 5 = 0)
           \* the division sign only where it is a division sign: elsewhere it opens a regexp and
           \* the "layout" would be part of a literal
           /\ row.a # SlashIx /\ (row.b = SlashIx => row.a \in BeforeSlash) /\ (c = SlashIx => row.b \in BeforeSlash)
